@@ -430,13 +430,9 @@ ProcessTask(Kx, t) ==
               s  == StepGen(K2, cg)
           IN CASE s[2] = "stop"  -> [s[1] EXCEPT !.ev[e].wH = @ - 1, !.tasks = @ \cup {<<e, cg, 0, root>>}, !.handling = 0]
                [] s[2] = "value" ->
-                    \* what the caller yields next is re-registered wrapped in a fresh generator with the caller as
-                    \* parent; a plain value finds its way (two ticks later), None is dropped together with the caller
-                    IF s[3] = 0 THEN [s[1] EXCEPT !.handling = 0]
-                    ELSE LET wg == Len(s[1].gens) + 1
-                         IN [s[1] EXCEPT !.gens = Append(@, [Gen0 EXCEPT !.kind = "v", !.e = e, !.h = W.h, !.caller = cg, !.obj = s[3]]),
-                                         !.tasks = @ \cup {<<e, wg, cg, root>>}, !.handling = 0]
-               [] s[2] = "gen"   -> [s[1] EXCEPT !.handling = 0, !.broken = TRUE]      \* known finding: not modelled further
+                    \* the caller handled the TimeoutError and goes on: as after a normal resume
+                    [AddResult(s[1], e, s[3]) EXCEPT !.ev[e].wH = @ - 1, !.tasks = @ \cup {<<e, cg, 0, root>>}, !.handling = 0]
+               [] s[2] = "gen"   -> [StartWait(s[1], s[3], root) EXCEPT !.handling = 0]
                [] OTHER -> TaskError([s[1] EXCEPT !.handling = 0], e, root, 2)
      ELSE IF Kx.gens[g].kind = "v"
      THEN \* the wrapper generator made for a value yielded right after a TimeoutError
